@@ -45,6 +45,10 @@ EXTRA = [
     "select a.b.c, \"x y\".z from \"my table\" as q", "select `a` from `t`", "select [1, 2, 3]",
     "select a from t1 left join t2 on t1.x = t2.y cross join t3", "select a from t limit 10 offset 5",
     "select top 5 a from t", "select a from t tablesample bernoulli (10)",
+    # NULL inside the parts that parse actions simplify on their own (frame bounds are scrubbed inside windows.py)
+    "select sum(x) over (order by y range between coalesce(w, null) preceding and current row) from t",
+    "select sum(x) over (order by y range f(null) preceding) from t",
+    "select sum(x) over (partition by f(null) order by coalesce(null, y) rows between 1 preceding and 1 following) from t",
 ]
 
 
